@@ -58,6 +58,7 @@ func (p *Pool) spawn(slot int) (*child, error) {
 		"MUREX_TEST_NO_EXEC_DEPS=1",
 		"LANG=C.UTF-8",
 		"GORACE=" + os.Getenv("GORACE"),
+		"GOMAXPROCS=" + envOr("VERIF_WORKER_GOMAXPROCS", "4"),
 	}, p.ExtraEnv...)
 	stdin, err := cmd.StdinPipe()
 	if err != nil {
@@ -234,4 +235,11 @@ func (p *Pool) Run(cases []*proto.Case, fn func(c *proto.Case, r *proto.Result))
 	}
 	close(jobs)
 	wg.Wait()
+}
+
+func envOr(k, d string) string {
+	if v := os.Getenv(k); v != "" {
+		return v
+	}
+	return d
 }
